@@ -216,9 +216,16 @@ func (w *builder) putOffline(o *engine.OfflineShape, signer *SignKey, destSigTyp
 	w.put("off_transient_key", ClsOffline, tk.Pub)
 	signed := w.b[start:]
 	var sig []byte
-	if signer != nil && signer.Type == destSigType {
+	switch {
+	case o.Forge == 1:
+		sig = expand(o.Seed, "offsig-forged", SigLen(destSigType))
+	case o.Forge == 2:
+		sig = make([]byte, SigLen(destSigType))
+	case o.Forge == 3:
+		sig = NewSignKey(o.ForgeSeed, destSigType).Sign(signed, o.Seed)
+	case signer != nil && signer.Type == destSigType:
 		sig = signer.Sign(signed, o.Seed)
-	} else {
+	default:
 		sig = expand(o.Seed, "offsig-opaque", SigLen(destSigType))
 	}
 	w.put("off_signature", ClsOffSig, sig)
@@ -388,7 +395,7 @@ func Build(sh *engine.Shape) (*Frame, error) {
 			f.Prefix = []byte{7}
 		}
 		f.SigStart = len(w.b)
-		w.put("signature", ClsSig, signKey.Sign(append(append([]byte(nil), f.Prefix...), w.b...), sh.Seed))
+		w.put("signature", ClsSig, signKey.Sign(append(signPrefix(sh, f.Prefix), w.b...), sh.Seed))
 	case "els":
 		// Sig = blinded key type; IdentSeed = blinded key seed; Size = inner
 		// length; U as ls2.
@@ -424,7 +431,7 @@ func Build(sh *engine.Shape) (*Frame, error) {
 		w.put("inner", ClsBody, inner)
 		f.Prefix = []byte{5}
 		f.SigStart = len(w.b)
-		w.put("signature", ClsSig, signKey.Sign(append([]byte{5}, w.b...), sh.Seed))
+		w.put("signature", ClsSig, signKey.Sign(append(signPrefix(sh, f.Prefix), w.b...), sh.Seed))
 		f.Ident = &Identity{Sig: sh.Sig, Key: bk}
 	case "raddr":
 		putRouterAddress(w, sh, "")
@@ -450,6 +457,15 @@ func Build(sh *engine.Shape) (*Frame, error) {
 	}
 	f.Bytes, f.Fields = w.b, w.f
 	return f, nil
+}
+
+// signPrefix is the store-type byte the signer actually prepends (the
+// prescribed one unless the shape says the publisher is Byzantine).
+func signPrefix(sh *engine.Shape, prescribed []byte) []byte {
+	if sh.Prefix != 0 {
+		return []byte{byte(sh.Prefix)}
+	}
+	return append([]byte(nil), prescribed...)
 }
 
 func putRouterAddress(w *builder, sh *engine.Shape, pfx string) {
